@@ -8,3 +8,7 @@ pub(crate) mod utf8;
 
 #[cfg(test)]
 pub(crate) mod mock;
+
+// verification hook: see the module documentation
+#[cfg(sonic_rs_verif)]
+pub(crate) mod verif_sync;
